@@ -518,6 +518,7 @@ func TestAVCSPS(t *testing.T) {
 			harness.Rec.Sample(map[string]interface{}{"kind": "avcsps", "case": c})
 		}
 		f := harness.Guarded(func() *harness.Fail { return checkAVCSPS(c) })
+		avcReplayConsistent(rt, raw, f, harness.Replayer(checkAVCSPS))
 		harness.Report(rt, "avcsps", c, f)
 	})
 }
